@@ -1,5 +1,6 @@
 import Resgate.Proofs.GwPure
 import Resgate.Proofs.Version
+import Resgate.Proofs.Mailbox
 
 /-
 C03 — Per-resource event delivery is ordered, gap-free and duplicate-free.
@@ -28,6 +29,21 @@ theorem mailbox_fifo (e : Gw.Entry) (st : Nat) (it : Gw.CItem) (rest : List (Nat
 theorem mailbox_locked (e : Gw.Entry) (h : e.locks.isSome = true) :
     ∀ it e', Gw.mbNext e ≠ .normal it e' :=
   Gw.mbNext_locked e h
+
+/-- Over whole runs of a cache entry's mailbox — any interleaving of enqueues, query-event locks,
+    arriving unlock items and worker steps: the normal items run so far, followed by those still
+    waiting, are exactly the items that were there plus those enqueued, in order (none lost, none
+    twice, none overtaking another). The three write operations are the functions the gateway model
+    itself uses (`Entry.push`, `Entry.pushUnlock`, `Entry.lockFor`), the worker step is `mbNext`. -/
+theorem mailbox_run_in_order (ops : List Gw.Mailbox.Op) (m : Gw.Mailbox.MB) :
+    (ops.foldl Gw.Mailbox.step m).ran ++ Gw.Mailbox.items (ops.foldl Gw.Mailbox.step m).e.queue
+      = m.ran ++ Gw.Mailbox.items m.e.queue ++ Gw.Mailbox.enqueued ops :=
+  Gw.Mailbox.run_spec ops m
+
+/-- … and a worker step under an active lock runs none of them. -/
+theorem mailbox_run_locked (m : Gw.Mailbox.MB) (h : m.e.locks.isSome = true) :
+    (Gw.Mailbox.step m .pop).ran = m.ran :=
+  Gw.Mailbox.pop_locked m h
 
 /-- What a subscriber delivers is a contiguous suffix of the resource's stream from the snapshot
     point, preceded only by custom events already stamped with the snapshot version (so nothing is
